@@ -776,3 +776,40 @@ Example hand_built_ext_without_ed :
   /\ from_slice (repeat 0 32 ++ [24] ++ [0; 0; 0; 0] ++ [161; 97; 97; 1])
      = Val (normalise (assign_ext hand_built None)).
 Proof. vm_compute. repeat split. Qed.
+
+(** * The builder programs of the correspondence runs stay inside [Built] *)
+Definition step_ok (s : step) : Prop :=
+  match s with
+  | SFlags f => N.land f FLAGS_USER = f
+  | SAcd g id key => length g = 16%nat /\ bytes_ok g /\ bytes_ok id /\ key_in_model key
+  | SMc o => mc_ok o
+  | SGa o => ga_ok o
+  | SRaw _ | SAcdRaw _ _ _ => False        (* assignments to the pub fields are not setters *)
+  end.
+
+Theorem run_steps_built sha256 steps : forall ad ad',
+  Built sha256 ad -> Forall step_ok steps -> run_steps ad steps = Val ad' -> Built sha256 ad'.
+Proof.
+  induction steps as [|s r IH]; intros ad ad' B F E; cbn [run_steps] in E.
+  - injection E as <-. exact B.
+  - inversion F as [|s' r' Hs Hr]; subst.
+    destruct (apply_step ad s) as [ad1| |] eqn:A; try discriminate E.
+    apply (IH ad1 ad'); [|exact Hr|exact E].
+    destruct s as [f|g id key|o|o|e|g id key]; cbn [apply_step step_ok] in A, Hs.
+    + injection A as <-. apply B_flags; assumption.
+    + destruct (acd_new g id key) as [a| |] eqn:N; try discriminate A. injection A as <-.
+      destruct Hs as (H1 & H2 & H3 & H4). eapply B_acd; eassumption.
+    + injection A as <-. apply B_mc; assumption.
+    + injection A as <-. apply B_ga; assumption.
+    + contradiction.
+    + contradiction.
+Qed.
+
+(** the same three facts for every well-formed value, built by the setters or not
+    ([ad_wf] allows any flag byte without reserved bits whose AT/ED bits match the sections) *)
+Theorem wf_encode_decode ad : ad_wf ad ->
+  to_vec ad = Val (layout ad) /\ parse_authdata_spec (layout ad) = Some (fields_of ad) /\
+  from_slice (layout ad) = Val (normalise ad).
+Proof.
+  intros W. split; [apply to_vec_layout, W|]. split; [apply spec_layout, W|apply from_slice_layout, W].
+Qed.
